@@ -17,6 +17,8 @@ type Result struct {
 	State     uint64         // hash of the final model state / interleaving
 	Foreign   int            // runs cut short by a panic that belongs to another property
 	NonTrivial bool
+	Evals      int   // evaluations inside this run (default 1)
+	Pin        []int // engine-specific: where the violation was found
 	Log       []string
 }
 
@@ -32,6 +34,12 @@ type Engine interface {
 	Runs(tier string) int
 	Rule() string
 	Assumptions() []string
+}
+
+// Pinner is optionally implemented by engines that enumerate faults inside
+// Exec: Pin rewrites a failing script so that it names the single fault.
+type Pinner interface {
+	Pin(s *Script, res *Result) *Script
 }
 
 var engines = map[string]Engine{}
